@@ -504,6 +504,19 @@ def execute(plan):
                 probes["exclusion_checked"] = 1
             except OracleFailure:
                 raise
+        # a second instance of a class that holds its function already (two plugins offering the same
+        # interface, under names of their own): the one in the stack is as specific, the newcomer is ignored
+        sims = [i for i in o.interfaces if getattr(i, "isSimActor", False) and i.function]
+        if sims:
+            first = sims[plan["seed"] % len(sims)]
+            again = type(first)(o.r, o.cs)
+            again.name = first.name + "_again"
+            before = [(i.name, id(i)) for i in o.interfaces]
+            o.addInterface(again, enabled=not first.enabled())
+            after = [(i.name, id(i)) for i in o.interfaces]
+            probes["second_instance_of_a_class_offered"] = 1
+            if after != before:
+                raise OracleFailure("C15.stack", f"a second instance of the class of {first.name} (same function) was offered: the stack went from {[n for n, _ in before]} to {[n for n, _ in after]}", {"what": "same-class-again"})
         # ---------------- restart
         rs = cfg.get("restart")
         if rs:
